@@ -96,10 +96,17 @@ class FlowGraph:
         """Global abstract location for a place that goes through a field of a field-based ADT."""
         if not self.field_based:
             return None
+        # `(*(*ctx).circ).input_regs`: the place denotes the innermost field
+        out = None
         for e in p["pr"]:
             if isinstance(e, dict) and "f" in e and e.get("a") in self.field_based:
-                return ("F", e["a"], e["n"])
-        return None
+                out = ("F", e["a"], e["n"])
+        return out
+
+    def fb_outer(self, p):
+        """the field-based fields a nested place passes through on the way to its innermost one"""
+        fs = [("F", e["a"], e["n"]) for e in p["pr"] if isinstance(e, dict) and "f" in e and e.get("a") in self.field_based]
+        return fs[:-1]
 
     def node_of_place(self, bk, p, write=False):
         fb = self.fb_node(p)
@@ -131,7 +138,7 @@ class FlowGraph:
         """Nodes whose value a read of place p depends on (the place itself + index locals)."""
         fb = self.fb_node(p)
         if fb is not None:
-            return [fb] + [(bk, il, None) for il in index_locals(p["pr"])]
+            return [fb] + self.fb_outer(p) + [(bk, il, None) for il in index_locals(p["pr"])]
         l = p["l"]
         f = first_field(p["pr"])
         out = []
